@@ -125,8 +125,16 @@ def main(argv=None):
 
     # ---------------- 1. concrete validation of harness + oracle on the plain interpreter (examples)
     ex_items = []
+    orig_pre = {o.name: o.pre for o in obls}
+    findings.apply_exclusions(prop, byname)
     for o in obls:
         for ex in o.examples:
+            try:
+                in_region = (orig_pre[o.name] is None or orig_pre[o.name](**ex)) and o.pre is not None and not o.pre(**ex)
+            except Exception:  # noqa
+                in_region = False
+            if in_region:
+                continue  # the example lies in a recorded known-finding region (replayed separately as the witness)
             ex_items.append(dict(prop=prop, tier=tier, name=o.name, args=ex))
     # ---------------- 2. known-finding witnesses
     kf = findings.open_for(prop)
